@@ -247,6 +247,13 @@ func builtinStringReplace(call FunctionCall) Value {
 		search = regexp.MustCompile(regexp.QuoteMeta(searchValue.string()))
 	}
 
+	replaceValue := call.Argument(1)
+	var replaceString []byte
+	if !replaceValue.isCallable() {
+		// replaceValue is converted to a String whether or not anything matches (15.5.4.11).
+		replaceString = []byte(replaceValue.string())
+	}
+
 	found := search.FindAllSubmatchIndex(target, find)
 	if global && searchObject != nil {
 		// Searching is done "in the same manner as in String.prototype.match,
@@ -260,7 +267,6 @@ func builtinStringReplace(call FunctionCall) Value {
 
 	lastIndex := 0
 	result := []byte{}
-	replaceValue := call.Argument(1)
 	if replaceValue.isCallable() {
 		target := string(target)
 		replace := replaceValue.object()
@@ -287,9 +293,8 @@ func builtinStringReplace(call FunctionCall) Value {
 			lastIndex = match[1]
 		}
 	} else {
-		replace := []byte(replaceValue.string())
 		for _, match := range found {
-			result = builtinStringFindAndReplaceString(result, lastIndex, match, target, replace)
+			result = builtinStringFindAndReplaceString(result, lastIndex, match, target, replaceString)
 			lastIndex = match[1]
 		}
 	}
